@@ -221,3 +221,42 @@ def repr_case(run, fname, argname, f, a, rep=None):
             ok = False
     return ok
 
+
+# ---- SP-type bases: shells of different angular momentum built from one exponent-array object, on one and on two centres ----------
+def sp_family(rng, ls=(0, 1), two_centres=True, nprim=3, sph=None):
+    """what parse_nwchem + make_contractions produce for Pople-type SP shells of a homonuclear molecule: on every atom an s and a
+    p (or d) shell with the same exponents — the very same array object (`share`) — and their own coefficient columns"""
+    exps = []
+    while len(exps) < nprim:
+        e = core.rand_exp(rng, 0.1, 30.0)
+        if all(abs(e - x) > 1e-3 * x for x in exps):
+            exps.append(e)
+    centres = [[core.snap(rng.uniform(-1, 1), 8) for _ in range(3)]]
+    if two_centres:
+        centres.append([float(c + d) for c, d in zip(centres[0], (1.1, -0.7, 0.9))])
+    specs = []
+    for ic, c in enumerate(centres):
+        for l in ls:
+            co = [[core.rand_coeff(rng)] for _ in range(nprim)]
+            specs.append(ShellSpec(l, c, exps, co, sph=(rng.random() < 0.5) if sph is None else sph, share="sp", icenter=ic))
+    return specs
+
+
+# ---- structured transformation matrices: what users pass besides dense MO coefficients ---------------------------------------
+def structured_transforms(rng, n):
+    """(label, matrix): diagonal phase matrix, scaled diagonal, signed permutation, selection of rows, a single row"""
+    perm = list(range(n))
+    rng.shuffle(perm)
+    out = [("diagonal signs", np.diag([float(rng.choice([-1, 1])) for _ in range(n)])),
+           ("scaled diagonal", np.diag([core.snap(rng.uniform(0.25, 3.0), 6) * rng.choice([-1, 1]) for _ in range(n)]))]
+    sp = np.zeros((n, n))
+    for r, c in enumerate(perm):
+        sp[r, c] = float(rng.choice([-1, 1]))
+    out.append(("signed permutation", sp))
+    k = max(1, n // 2)
+    sel = np.zeros((k, n))
+    for r, c in enumerate(perm[:k]):
+        sel[r, c] = 2.0 if r % 2 else 1.0
+    out.append(("scaled selection", sel))
+    return out
+
